@@ -816,6 +816,9 @@ class Sym:
             defs = self.rd.reaching(e.id, at)
             if len(defs) == 1 and defs[0].kind == "assign" and isinstance(defs[0].value, (ast.Compare, ast.BoolOp, ast.UnaryOp)):
                 return self.cmp(defs[0].value, defs[0].node, depth + 1, neg)
+            if len(defs) == 1 and defs[0].kind == "assign" and isinstance(defs[0].value, ast.Name) and depth < self.max_depth and isinstance(defs[0].ast, ast.Assign) and len(defs[0].ast.targets) == 1 \
+                    and isinstance(defs[0].ast.targets[0], ast.Name):
+                return self.cmp(defs[0].value, defs[0].node, depth + 1, neg)      # a copy of a local holding a comparison
         return ("truthy", self.canon(e, at, depth + 1), not neg)
 
     def _rel(self, l, op, r, at, depth, neg):
